@@ -94,7 +94,7 @@ package apk
 //@         "\ndatahash = " + datahash + "\n"
 //@ }
 //
-//@ func writeControl(w io.Writer, data controlData) (err error)
+//@ inline func writeControl(w io.Writer, data controlData) (err error)
 //@   requires data.Info != nil
 //@   ensures [C02 C14 C15 C03] control-fields: implies(err == nil, ghostStr(w, "out") == old(ghostStr(w, "out")) + apkControl(data.Info, data.InstalledSize, data.Datahash))
 //
